@@ -321,7 +321,7 @@ def finish(pid, tier, seed, m, crashed, timeouts, nshards, wall):
             known_hits[kk] = known_hits.get(kk, 0) + v['count']
             w = v['witnesses'][0]
             emit('KNOWN-FINDING: property=%s %s: %s (%d cases, e.g. %s)' % (
-                pid, kk, open_keys[kk].get('mechanism', ''), v['count'], w['msg'][:300]))
+                pid, kk, open_keys[kk].get('short', open_keys[kk].get('mechanism', ''))[:160], v['count'], w['msg'][:300]))
         else:
             for w in v['witnesses'][:1]:
                 rp = os.path.join(HERE, 'replays', pid, '%s.json' % digest(w))
